@@ -41,3 +41,33 @@ fn witness_roundtrip_clock_values() {
     }
     assert_eq!(bad, 0, "make/unmake round trip changed the position for {} (position, move) pairs", bad);
 }
+
+/// any full-move number: the round trip and the successor's move number at ordinary, large and very large move numbers
+#[test]
+fn witness_roundtrip_fullmove_numbers() {
+    let mut bad = 0;
+    for full in [1u32, 2, 57, 1000, 32767, 32768, 32769, 40000, 65535, 65536, 100000, 3000000] {
+        for fen in [
+            format!("r3k2r/pppq1ppp/2n2n2/3pp3/3PP3/2N2N2/PPPQ1PPP/R3K2R w KQkq - 7 {}", full),
+            format!("r3k2r/pppq1ppp/2n2n2/3pp3/3PP3/2N2N2/PPPQ1PPP/R3K2R b KQkq - 8 {}", full),
+            format!("8/P5k1/8/3pP3/8/8/6p1/K6R w - d6 0 {}", full),
+        ] {
+            bad += round_trip(&fen);
+            // the successor's full-move number: unchanged after a white move, +1 after a black move
+            let mut board = Bitboard::from_fen_string_unchecked(&fen);
+            let white = fen.split(' ').nth(1) == Some("w");
+            for mv in board.generate_pseudo_legal_moves() {
+                board.make(mv);
+                let after = Fen::from(&board).fen;
+                let got: u64 = after.split(' ').nth(5).unwrap().parse().unwrap();
+                let expect = full as u64 + if white { 0 } else { 1 };
+                if got != expect {
+                    if bad < 5 { println!("FAILING-INPUT: fen={:?} after {} the full-move number is {} (expected {})", fen, mv.to_uci_string(), got, expect); }
+                    bad += 1;
+                }
+                board.unmake(mv);
+            }
+        }
+    }
+    assert_eq!(bad, 0);
+}
